@@ -9,6 +9,7 @@ import JsonbModel.Proofs.DecUtf8
 import JsonbModel.Proofs.DecConsume
 import JsonbModel.Proofs.TextFallback
 import JsonbModel.Proofs.JsonParserTotal
+import JsonbModel.Proofs.TextFallbackAny
 
 namespace Jsonb.Props
 open Jsonb JV
@@ -54,5 +55,29 @@ theorem C10_valid_decodes (v : JV) (h : goodTop v = true) :
 example : (parseJsonb [0x40, 0, 0, 1, 0, 0, 0, 0, 0, 0, 0, 0]).isOk = false ∧
     (parseJsonb [0x40, 0, 0, 1, 0, 0, 0, 0, 0, 0, 0, 0]).isPanic = false := by decide
 example : (parseJsonb [0x31, 0x32, 0x33, 0x34, 0x35, 0x36, 0x37, 0x38]).isOk = false := by decide
+
+/-- **the text fallback, sharp**: for every first byte that can start a JSON text other than `[` and `\`
+no length bound is needed; for `[` and `\` (whose bits read as an OBJECT header) the text reaches the
+text parser whenever fewer than 8 * (count spelled by its first four bytes) bytes follow them — in
+particular every text shorter than 3 623 878 660 bytes -/
+theorem C10_text_fallback_any (t : Bytes) (b0 : UInt8) (tl : Bytes) (ht : t = b0 :: tl)
+    (hs : jsonStart b0 = true) (h1 : b0 ≠ 0x5B) (h2 : b0 ≠ 0x5C) : T.fromSlice t = parseValue t :=
+  fromSlice_text_any t b0 tl ht hs h1 h2
+theorem C10_text_fallback_sharp (b0 b1 b2 b3 : UInt8) (rest : Bytes) (hs : jsonStart b0 = true)
+    (hl : b0 = 0x5B ∨ b0 = 0x5C → rest.length < 8 * hdrCount b0 b1 b2 b3) :
+    T.fromSlice (b0 :: b1 :: b2 :: b3 :: rest) = parseValue (b0 :: b1 :: b2 :: b3 :: rest) :=
+  fromSlice_text_sharp b0 b1 b2 b3 rest hs hl
+theorem C10_text_fallback_3GB (t : Bytes) (b0 : UInt8) (tl : Bytes) (ht : t = b0 :: tl)
+    (hs : jsonStart b0 = true) (hl : t.length < 3623878660) : T.fromSlice t = parseValue t :=
+  fromSlice_text_lt t b0 tl ht hs hl
+/-- **known finding D23**: the bound cannot be dropped.  A byte string that starts with `[`, is long
+enough and spells entry words in the right places is accepted by the binary decoder (which checks
+neither key order nor trailing bytes) — `from_slice` then never asks the text parser -/
+theorem C10_finding_long_text_read_as_binary (tl : Bytes) :
+    jsonStart 0x5B = true ∧ hdrCount 0x5B 0 0 0 = 452984832 ∧
+    (tfText 0x5B 0 0 0 tl).length = 3623878660 + tl.length ∧
+    T.fromSlice (tfText 0x5B 0 0 0 tl) = .ok (obj [([], null)]) ∧
+    parseValue (tfText 0x5B 0 0 0 tl) = .err "ExpectedSomeValue" ∧
+    T.fromSlice (tfText 0x5B 0 0 0 tl) ≠ parseValue (tfText 0x5B 0 0 0 tl) := text_fallback_counterexample tl
 
 end Jsonb.Props
